@@ -385,3 +385,108 @@ theorem source_has_fixes :
     chainFixOfSource = true ∧ metaFixOfSource = true ∧ secondPassShape = true := by decide
 
 end Restic.Props.C18
+
+namespace Restic.Props.C18
+open Restic.Model.RestoreFS Restic.Model.RestoreTree
+
+/-! ## negation witnesses for the unmodified source, and the same inputs with the fixes -/
+
+def nT : Name := [116]   -- "t": the target directory
+def nO : Name := [111]   -- "o": a directory beside it
+def nA : Name := [97]
+def nB : Name := [98]
+def nF : Name := [102]
+def nS : Name := [115]
+
+def fileNode (name : Name) (mode : Nat) (links inode : Nat) : Node :=
+  .mk name .file mode [120] links inode false [] false []
+def dirNode (name : Name) (children : List Node) : Node :=
+  .mk name .dir 0o755 [] 1 0 false [] true children
+def linkNode (name : Name) (target : List Name) : Node :=
+  .mk name .symlink 0o777 [] 1 0 false target false []
+
+def selAll : Path → Bool → Bool × Bool := fun _ _ => (true, true)
+
+/-- `--include /a/b/f` -/
+def selABF : Path → Bool → Bool × Bool := fun loc isDir =>
+  (loc == [nA, nB, nF], isDir && (loc == [nA] || loc == [nA, nB]))
+
+/-- F13: the target already contains `t/a -> ../o`; `restore --include /a/b/f` creates
+    `o/b` and `o/b/f` -/
+def fsF13 : FS := ⟨[([nT], .dir 0o755), ([nT, nA], .symlink false [dotdot, nO]), ([nO], .dir 0o755)]⟩
+def treeF13 : List Node := [dirNode nA [dirNode nB [fileNode nF 0o644 1 0]]]
+
+theorem f13_witness :
+    outsideEq [nT] fsF13 (restore ⟨[nT], selABF, .always, false, false⟩ treeF13 fsF13 false).fs = false ∧
+    (restore ⟨[nT], selABF, .always, false, false⟩ treeF13 fsF13 false).fs.get [nO, nB, nF]
+      = some (.file [120] 0o644) := by decide
+
+theorem f13_fixed :
+    outsideEq [nT] fsF13 (restore ⟨[nT], selABF, .always, true, true⟩ treeF13 fsF13 false).fs = true ∧
+    (restore ⟨[nT], selABF, .always, true, true⟩ treeF13 fsF13 false).fs.get [nT, nA, nB, nF]
+      = some (.file [120] 0o644) := by decide
+
+/-- duplicate names: a symlink `s -> ../o/f` and a regular file `s` (mode 0777) in one tree.
+    The file is restored, replaced by the symlink in the second pass, and the file's metadata
+    is then applied through the symlink: `o/f` outside the target gets mode 0777. -/
+def fsDup : FS := ⟨[([nT], .dir 0o755), ([nO], .dir 0o755), ([nO, nF], .file [1] 0o600)]⟩
+def treeDup : List Node := [linkNode nS [dotdot, nO, nF], fileNode nS 0o777 1 0]
+
+theorem dup_witness :
+    outsideEq [nT] fsDup (restore ⟨[nT], selAll, .always, false, false⟩ treeDup fsDup false).fs = false ∧
+    (restore ⟨[nT], selAll, .always, false, false⟩ treeDup fsDup false).fs.get [nO, nF]
+      = some (.file [1] 0o777) := by decide
+
+/-- the ancestor fix alone does not help here, the metadata check is needed -/
+theorem dup_needs_metaFix :
+    outsideEq [nT] fsDup (restore ⟨[nT], selAll, .always, true, false⟩ treeDup fsDup false).fs = false := by
+  decide
+
+theorem dup_fixed :
+    outsideEq [nT] fsDup (restore ⟨[nT], selAll, .always, true, true⟩ treeDup fsDup false).fs = true := by
+  decide
+
+/-- duplicate names, directory variant: symlink `a -> ../o` and directory `a` containing a
+    symlink `f`: in the second pass the (still empty) directory is replaced by the symlink and
+    `f` is then removed and created in `o` -/
+def treeDupDir : List Node := [linkNode nA [dotdot, nO], dirNode nA [linkNode nF [nB]]]
+
+theorem dupdir_witness :
+    (restore ⟨[nT], selAll, .always, false, false⟩ treeDupDir fsDup false).fs.get [nO, nF]
+      = some (.symlink false [nB]) := by decide
+
+theorem dupdir_fixed :
+    outsideEq [nT] fsDup (restore ⟨[nT], selAll, .always, true, true⟩ treeDupDir fsDup false).fs = true := by
+  decide
+
+/-- `--overwrite never`, hard link group `a`,`b`, and `t/a` already is a symlink to `o/f`:
+    `a` is kept, `b` becomes a hard link to the symlink, and `b`'s mode is applied through it -/
+def fsHL : FS := ⟨[([nT], .dir 0o755), ([nT, nA], .symlink false [dotdot, nO, nF]),
+  ([nO], .dir 0o755), ([nO, nF], .file [1] 0o600)]⟩
+def treeHL : List Node := [fileNode nA 0o777 2 7, fileNode nB 0o777 2 7]
+
+theorem hardlink_symlink_witness :
+    (restore ⟨[nT], selAll, .never, false, false⟩ treeHL fsHL false).fs.get [nO, nF]
+      = some (.file [1] 0o777) := by decide
+
+theorem hardlink_symlink_fixed :
+    outsideEq [nT] fsHL (restore ⟨[nT], selAll, .never, true, true⟩ treeHL fsHL false).fs = true := by
+  decide
+
+/-! ## non-vacuity -/
+
+/-- the hypotheses of `restore_confined` are satisfiable: the F13 input with the fixes -/
+example : Setup ⟨[nT], selABF, .always, true, true⟩ :=
+  ⟨rfl, rfl, by intro n hn; simp at hn; subst hn; exact ⟨by decide, by decide, by decide⟩, by decide⟩
+
+example : RealFrom fsF13 [] [nT] := by
+  intro k h1 h2
+  have : k = 1 := by simp at h2; omega
+  subst this
+  decide
+
+/-- invalid names are rejected by the transcribed checks, plain ones pass -/
+example : nameCheck1 dotdot = false ∧ nameCheck1 dot = false ∧ nameCheck1 [] = false ∧
+    nameCheck1 [97, 47, 98] = false ∧ nameCheck1 slash = true ∧ nameCheck1 nA = true := by decide
+
+end Restic.Props.C18
